@@ -240,7 +240,8 @@ def r19_5(ctx, S, prog, crate, rule="R19.5"):
     current_mode.sample_size() call that sizes the round's samples, before the round is broadcast - so whenever the loop
     stops, the recorded size is the one the retained samples were taken with."""
     b = S.body
-    stores = [(bi, si, s) for bi, si, s in b.stmts() if s["k"] == "assign" and s["p"]["l"] == 1 and place_fields(s["p"]) == ("samples", "sample_size")]
+    from lib.facts import place_root_fields
+    stores = [(bi, si, s) for bi, si, s in b.stmts() if s["k"] == "assign" and s["p"]["proj"] and place_root_fields(b, s["p"]) == (1, ("samples", "sample_size"))]
     if not ctx.check(len(stores) == 1, rule, [b.path, "one-store"], "stores to samples.sample_size: %d" % len(stores), b.where(0)):
         return
     bi, si, s = stores[0]
